@@ -66,6 +66,8 @@ func newEvent(w LevelWriter, level Level) *Event {
 	e.level = level
 	e.stack = false
 	e.skipFrame = 0
+	e.done = nil
+	e.ctx = nil
 	return e
 }
 
